@@ -92,7 +92,7 @@ func TestCheck(t *testing.T) {
 	}
 	par := 12
 	waves := (len(jobs) + par - 1) / par
-	budget := runner.Pick(r, 70*time.Second, 13*time.Minute) / time.Duration(waves)
+	budget := runner.Pick(r, 150*time.Second, 13*time.Minute) / time.Duration(waves)
 	if ji, ok := runner.Job(); ok {
 		j := jobs[ji]
 		al, name := alpha(), "c02"
@@ -110,9 +110,13 @@ func TestCheck(t *testing.T) {
 		qcheck.Report(r, spec, res)
 		r.Finish()
 	}
+	twoHandlePart(r, t)
+	if _, child := runner.IsShard(); child {
+		return
+	}
 	r.RunJobs(len(jobs), par, budget+2*time.Minute)
 	r.Assume("Postgres backend not executed (no server in the sandbox)")
 	r.Assume("alphabet: ids a,b,c on routes /r1,/r1,/r2 and targets t1,t2,t1; see DESIGN.md §6 C02")
-	r.Set("rule", "every operation sequence over the alphabet up to the depth per backend/config; a state is distinct by canonical implementation dump; non-trivial = distinct (operation kind, result class) pairs and distinct observed state-machine edges")
+	r.Set("rule", "every operation sequence over the alphabet up to the depth per backend/config; a state is distinct by canonical implementation dump; non-trivial = distinct (operation kind, result class) pairs and distinct observed state-machine edges; plus a two-handle part: the gateway's SQLite store and a second default-option store on the same file (the MCP server's direct mode) run settlements against cancel/requeue/resume/DLQ operations, every interleaving of their statements that SQLite's write lock admits (unbounded, sleep-set reduced), oracle = linearizability against qmodel + lease monitor")
 	r.Finish()
 }
